@@ -86,7 +86,8 @@ impl From<&Vlan> for Vec<u8> {
     fn from(vlan: &Vlan) -> Self {
         let header = vlan.header.borrow().clone();
         let mut bytes: Vec<u8> = (&header).into();
-        if let Some(inner) = vlan.inner.borrow().clone() {
+        // an error object or null cached by a failed parse is not a layer
+        if let Some(inner) = vlan.inner.borrow().clone().filter(|o| o.is_packet_layer()) {
             let b: Vec<u8> = inner.as_ref().into();
             bytes.extend_from_slice(&b);
         } else {
